@@ -406,6 +406,9 @@ pub enum Action {
     Drop { site: u32, arg: u64 },
     /// bridge hosts: an item for a live stream whose bytes do not decode (must be rejected and change nothing)
     BadItem { site: u32, arg: u64 },
+    /// bridge hosts: the shell acknowledges the oldest render request it holds (rejected, and the
+    /// bridge may forget the entry)
+    AckRender,
     /// Direct hosts: drop the command value
     DropRoot(RootId),
     /// drop the whole core / every command
@@ -422,6 +425,7 @@ impl Action {
             Action::Resolve { .. } => "resolve",
             Action::Drop { .. } => "drop",
             Action::BadItem { .. } => "bad_item",
+            Action::AckRender => "ack_render",
             Action::DropRoot(_) => "drop_cmd",
             Action::DropAll => "drop_core",
         }
@@ -569,6 +573,14 @@ pub fn gen_script(rng: &mut Rng, programs: Vec<Cmd>, host: HostSel, sc: &ScriptC
             if host.is_bridge() && sc.bad_items && !many_live.is_empty() {
                 opts.push((2, 9));
             }
+            let never: Vec<ReqKey> = outs.iter().filter(|o| o.arity == Arity::Never && !o.resolved).map(|o| o.key).collect();
+            if host.is_bridge() && sc.bad_items {
+                // a shell that acknowledges everything: notifications and renders get answers too
+                if !never.is_empty() {
+                    opts.push((2, 11));
+                }
+                opts.push((1, 12));
+            }
             if sc.dups && !dup.is_empty() && !host.is_bridge() {
                 opts.push((3, 4));
             }
@@ -641,6 +653,12 @@ pub fn gen_script(rng: &mut Rng, programs: Vec<Cmd>, host: HostSel, sc: &ScriptC
                     let k = choose(rng, &many_live);
                     Action::BadItem { site: k.0, arg: k.1 }
                 }
+                11 => {
+                    let k = never[rng.usize_below(never.len())];
+                    next_v += 1;
+                    Action::Resolve { site: k.0, arg: k.1, v: next_v }
+                }
+                12 => Action::AckRender,
                 _ => {
                     dropped_all = true;
                     Action::DropAll
@@ -740,7 +758,7 @@ pub fn apply_to_model(m: &mut Model, act: &Action) {
             m.resolve((*site, *arg), *v);
         }
         Action::Drop { site, arg } => m.drop_req((*site, *arg)),
-        Action::BadItem { .. } => {}
+        Action::BadItem { .. } | Action::AckRender => {}
         Action::DropRoot(id) => m.drop_root(id),
         Action::DropAll => m.drop_all(),
     }
